@@ -38,6 +38,8 @@ type ctxExtra struct {
 	freshList   []string
 	ptrField    map[string]int
 	freshErrs   []string
+	lastDirect  map[string][]types.Object
+	lastIndirect map[string]bool
 	loopIndex   map[ast.Node]int
 	curLoop     ast.Node
 }
@@ -55,6 +57,8 @@ func newCtx(e *Engine, fi *FuncInfo) *Ctx {
 	c.writes = map[string]bool{}
 	c.lockedOnce = map[string]bool{}
 	c.ptrField = map[string]int{}
+	c.lastDirect = map[string][]types.Object{}
+	c.lastIndirect = map[string]bool{}
 	if fi.Contract != nil {
 		c.props = fi.Contract.Props
 		c.bv = fi.Contract.ModeBV
@@ -162,14 +166,13 @@ func (e *Engine) verifyFunc(fi *FuncInfo) *FuncResult {
 			if !ok {
 				continue
 			}
-			if tn, ok := pre.lookupName(base).(*types.TypeName); ok {
-				if _, isB := pre.bound[base]; !isB {
-					ss := pre.sortOf(tn.Type())
-					for _, f := range c.structFields(ss, field) {
-						c.frameAll[ss+"."+f] = true
-					}
-					continue
+			if tt := pre.frameType(base); tt != nil {
+				ss := pre.sortOf(tt)
+				for _, f := range c.structFields(ss, field) {
+					c.frameAll[ss+"."+f] = true
+					c.frameAll[ss+".$"+f] = true
 				}
+				continue
 			}
 			ex, err := parseExprCached(base)
 			if err != nil {
@@ -252,6 +255,22 @@ func (c *Ctx) frameObligations(st, entry *State, ri int) {
 		}
 		if h == h0 || c.frameAll[key] {
 			continue
+		}
+		// lock-guarded fields of monitor objects are unstable outside their lock: not part of any caller-visible frame
+		if ss, fld, ok := cutLast(key, "."); ok {
+			if ts := c.e.typeSpecForSort(ss); ts != nil {
+				guarded := false
+				for _, fs := range ts.Guards {
+					for _, g := range fs {
+						if g == fld {
+							guarded = true
+						}
+					}
+				}
+				if guarded && len(c.frameRefs[key]) == 0 {
+					continue
+				}
+			}
 		}
 		refs := append([]string(nil), c.frameRefs[key]...)
 		// objects allocated by this function are outside the caller's view
